@@ -4,6 +4,10 @@ use crate::drive::{Ctx, GInfo, World};
 use serde_json::Value;
 
 pub mod p01;
+pub mod p02;
+pub mod p03;
+pub mod p04;
+pub mod p08;
 
 /// (grammar index, rule index) pairs a property runs on.
 pub fn pairs<'w>(world: &'w World, families: &[&str]) -> Vec<(&'w GInfo, usize)> {
@@ -27,30 +31,75 @@ pub fn per_pair(total: u64, pairs: usize, min: u32, max: u32) -> u32 {
 }
 
 pub fn run_property(world: &World, ctx: &mut Ctx) -> Option<Value> {
+    if let Some(v) = run_saved_replays(world, ctx) {
+        return Some(v);
+    }
     match ctx.prop {
         "C01" => p01::run(world, ctx),
+        "C02" => p02::run(world, ctx),
+        "C03" => p03::run(world, ctx),
+        "C04" => p04::run(world, ctx),
+        "C08" => p08::run(world, ctx),
         _ => None,
     }
 }
 
+/// Re-execute one saved case through its property's check.
+pub fn replay_case(ctx: &mut Ctx, gi: &GInfo, rule: usize, doc: &Value) -> Option<crate::drive::CaseResult> {
+    let input = doc["input"].as_str().unwrap_or("");
+    Some(match ctx.prop {
+        "C01" => p01::check_input(ctx, gi, rule, input),
+        "C02" => p02::check_input(ctx, gi, rule, input),
+        "C03" => p03::replay(ctx, gi, rule, doc),
+        "C04" => p04::check_input(ctx, gi, rule, input),
+        "C08" => p08::replay(ctx, gi, rule, doc),
+        _ => return None,
+    })
+}
+
+pub fn find_case<'w>(world: &'w World, doc: &Value) -> Option<(&'w GInfo, usize)> {
+    let text = doc["grammar"]["text"].as_str().unwrap_or("");
+    let opts = doc["grammar"]["options"].as_str().unwrap_or("");
+    let gi = world.grammars.iter().find(|g| g.g.text() == text && g.g.options() == opts)?;
+    let rule = gi.rules.iter().position(|r| r.0 == doc["rule"].as_str().unwrap_or(""))?;
+    Some((gi, rule))
+}
+
+/// The regression tier: every file under /verif/replays/<property>/ is executed first.
+pub fn run_saved_replays(world: &World, ctx: &mut Ctx) -> Option<Value> {
+    let dir = std::path::Path::new(crate::common::VERIF_ROOT).join("replays").join(ctx.prop);
+    let mut files: Vec<_> = std::fs::read_dir(&dir).ok()?.flatten().map(|e| e.path()).filter(|p| p.extension().map(|x| x == "json").unwrap_or(false)).collect();
+    files.sort();
+    for f in files {
+        let doc: Value = match std::fs::read_to_string(&f).ok().and_then(|t| serde_json::from_str(&t).ok()) {
+            Some(d) => d,
+            None => continue,
+        };
+        if let Some((gi, rule)) = find_case(world, &doc) {
+            ctx.ev.count("saved_replays_executed");
+            if let Some(crate::drive::CaseResult::Violation(v)) = replay_case(ctx, gi, rule, &doc) {
+                return Some(v);
+            }
+        } else {
+            ctx.ev.count("saved_replays_not_in_corpus");
+        }
+    }
+    None
+}
+
 pub fn replay(world: &World, doc: &Value, path: &str) -> i32 {
     let prop = doc["property"].as_str().unwrap_or("");
-    let id = doc["grammar"]["id"].as_str().unwrap_or("");
-    let gi = match world.grammars.iter().find(|g| g.g.id() == id && g.g.text() == doc["grammar"]["text"].as_str().unwrap_or("")) {
-        Some(g) => g,
+    let (gi, rule) = match find_case(world, doc) {
+        Some(x) => x,
         None => {
-            eprintln!("replay: grammar {} is not in the compiled corpus", id);
+            eprintln!("replay: the grammar of the replay file is not in the compiled corpus");
             return 2;
         }
     };
-    let rule = match gi.rules.iter().position(|r| r.0 == doc["rule"].as_str().unwrap_or("")) {
-        Some(r) => r,
-        None => return 2,
-    };
     let mut ctx = crate::drive::replay_ctx(prop);
-    let res = match prop {
-        "C01" => p01::replay(&mut ctx, gi, rule, doc),
-        _ => {
+    let res = match replay_case(&mut ctx, gi, rule, doc) {
+        Some(r) => r,
+        None => {
             eprintln!("replay: no driver for {}", prop);
             return 2;
         }
